@@ -188,3 +188,18 @@ Proof.
   destruct (nthZ_some _ s (if dim <? 0 then dim + zlen s else dim) ltac:(case_if; lia)) as [x ->]. cbn [obind].
   unfold axis_ok. replace (zlen s <? 1) with false by lia. rewrite Ed. reflexivity.
 Qed.
+
+(* the repaired 0-d branch (proposed_fixes/ready/C08_16): every legal size *)
+Lemma unfold_shape_v_fixed : forall s dimension size step out,
+  shape_ok s -> torch_unfold_shape s dimension size step = Some out -> aten_unfold_shape_v true s dimension size step = Some out.
+Proof.
+  intros s dim size step out Hok H. unfold aten_unfold_shape_v. cbn [andb]. destruct (zlen s =? 0) eqn:Er; cbn [andb].
+  - destruct s; [|rewrite zlen_cons in Er; pose proof (zlen_nonneg _ s); lia].
+    destruct (size =? 0) eqn:Es.
+    + apply Z.eqb_eq in Es. subst size. unfold torch_unfold_shape in H. cbn [zlen length Z.of_nat Z.eqb] in H.
+      destruct ((dim =? 0) || (dim =? -1)); [|discriminate]. destruct ((0 <=? 0) && (0 <=? 1) && (0 <? step)); [|discriminate].
+      inversion H; subst out. reflexivity.
+    + apply unfold_shape_correct; [assumption | | assumption]. intros _. unfold torch_unfold_shape in H. cbn [zlen length Z.of_nat Z.eqb] in H.
+      destruct ((dim =? 0) || (dim =? -1)); [|discriminate]. destruct ((0 <=? size) && (size <=? 1) && (0 <? step)) eqn:E; [|discriminate]. lia.
+  - apply unfold_shape_correct; [assumption | lia | assumption].
+Qed.
